@@ -7,7 +7,7 @@ Python container; recorded per call: outcome class of each, contents unchanged
 or not, and whether result, contents, shape (state tree) and pickle agree.
 
 usage: python -m harness.workers.sweep_worker JOB.json RESULT.json"""
-import json, sys, pickle
+import operator, json, sys, pickle
 
 
 class Idx:
@@ -114,10 +114,10 @@ def main():
         ('add', 'write', lambda t, x: (t.add(x), None)[1]),
         ('insert', 'write', lambda t, x: (t.insert(x), None)[1]),
         ('update', 'write', lambda t, x: t.update([x])),
-        ('ior', 'write', lambda t, x: (t.__ior__([x]), None)[1]),
-        ('isub', 'filter', lambda t, x: (t.__isub__([x]), None)[1]),
-        ('iand', 'filter', lambda t, x: (t.__iand__(list(t.keys()) + [x]), None)[1]),
-        ('ixor', 'write', lambda t, x: (t.__ixor__([x]), None)[1]),
+        ('ior', 'write', lambda t, x: (operator.ior(t, [x]), None)[1]),
+        ('isub', 'filter', lambda t, x: (operator.isub(t, [x]), None)[1]),
+        ('iand', 'filter', lambda t, x: (operator.iand(t, list(t.keys()) + [x]), None)[1]),
+        ('ixor', 'write', lambda t, x: (operator.ixor(t, [x]), None)[1]),
         ('minKey', 'bound', lambda t, x: t.minKey(x)),
         ('maxKey', 'bound', lambda t, x: t.maxKey(x)),
         ('keys_min', 'bound', lambda t, x: list(t.keys(x))),
@@ -130,6 +130,7 @@ def main():
         ('setdefault_new', 'write', lambda t, x: (t.setdefault(emb.key(4), x), None)[1]),
         ('setdefault_present', 'write', lambda t, x: (t.setdefault(emb.key(3), x), None)[1]),
         ('insert_new', 'write', lambda t, x: (t.insert(emb.key(4), x), None)[1]),
+        ('insert_present', 'write', lambda t, x: (t.insert(emb.key(3), x), None)[1]),
         ('update_dict', 'write', lambda t, x: t.update({emb.key(4): x})),
         ('get_default', 'lookup', lambda t, x: 'absent' if t.get(emb.key(4), x) is x else 'present'),
         ('pop_default', 'lookup', lambda t, x: 'absent' if t.pop(emb.key(4), x) is x else 'present'),
@@ -149,6 +150,9 @@ def main():
         # keys of one container are mutually comparable (the documentation's rule): the stored keys are
         # strings, so only strings, None (ordered before everything) and default-comparison objects are offered
         keyclasses = [(m, x) for m, x in keyclasses if m['t'] in ('str', 'none', 'plain')]
+        # ... and keys that cannot be ordered against the stored strings (an int, a tuple): whatever happens - the
+        # comparison raises TypeError wherever one is made - must happen alike in both implementations
+        keyclasses += [(dict(t='incomp'), 7), (dict(t='incomp'), ('b', 1))]
     valclasses = classes_for('val', vcode) + [(dict(t='index'), Idx(7))]
     for kindname, ki, is_set in kinds:
         for shape, ranks in shapes.items():
@@ -162,7 +166,7 @@ def main():
                         continue
                     if name.startswith('insert') and not hasattr(C[ki], 'insert'):
                         continue
-                    if role == 'val' and shape == 'empty' and name in ('setitem_replace', 'setdefault_present'):
+                    if role == 'val' and shape == 'empty' and name in ('setitem_replace', 'setdefault_present', 'insert_present'):
                         continue
                     for m, x in classes:
                         tc, tp = build(C[ki], is_set, ranks), build(PY[ki], is_set, ranks)
